@@ -1684,13 +1684,22 @@ class _HTTPStorageServer:
                         storage_index, share_number, offset, length
                     )
                     for (offset, length) in readv
-                ]
+                ],
+                consumeErrors=True,
             )
             pending_reads[share_number] = share_reads
 
         # Wait for all the queries to finish:
         for share_number, pending_result in pending_reads.items():
-            reads[share_number] = yield pending_result
+            try:
+                reads[share_number] = yield pending_result
+            except defer.FirstError as e:
+                # Like the Foolscap protocol, leave out shares the server
+                # does not have instead of failing the whole read.
+                if (e.subFailure.check(ClientException)
+                    and e.subFailure.value.code == http.NOT_FOUND):
+                    continue
+                raise
 
         return reads
 
